@@ -621,7 +621,7 @@ func checkC13(c *Check) {
 				if name == "" {
 					name = exprStr(call.Fun)
 				}
-				key := rd.FI.Obj.Name() + ":" + name + itoa(i+1)
+				key := refName(rd.FI.Obj) + ":" + name + itoa(i+1)
 				eo := errVarAssigned(di, cp.Node(), call)
 				if eo == nil {
 					c.Hold("R5", key, call.Pos(), false, "the error of "+name+" is dropped")
